@@ -10,6 +10,7 @@ import (
 	"go/token"
 	"go/types"
 	"strings"
+	"unicode"
 
 	"golang.org/x/tools/go/ssa"
 )
@@ -2484,4 +2485,133 @@ func c08NoWordSizedSets(c *Ctx, p *Prog) {
 	}
 	c.Check(bad == "", R, "shift amounts in benchproc", "", fmt.Sprintf("%d variable shifts, none by an unbounded loop index", n),
 		"a left shift by a loop index that the code does not bound ("+bad+"): a set of fields kept as bits of one word silently loses every field from the word's width on — with more than 64 flattened fields (a .config group that has grown) differing fields are not reported")
+}
+
+// c02KeyCharacters (C02/R17): what may stand inside a configuration key is decided by unicode.IsSpace and
+// unicode.IsUpper, for ASCII too: one step of the key scan of parseKeyValueLine (not the first character) is evaluated
+// for sample bytes — comparisons of the character with constants and the unicode predicates answered from the sample —
+// and must refuse the line for every space and upper-case sample and go on for lower-case letters, digits and
+// punctuation. A fast path that knows only blank and tab lets `progress\rdone: 100%` become configuration.
+func c02KeyCharacters(c *Ctx, p *Prog) {
+	const R = "C02/R17"
+	fn := p.Fn("benchfmt", "parseKeyValueLine")
+	if fn == nil {
+		c.Undecided(R, "anchor:parseKeyValueLine", "", "not found")
+		return
+	}
+	site := p.pos(fn.Pos())
+	var lp *loopInfo
+	for _, l := range naturalLoops(fn) {
+		for b := range l.Blocks {
+			for _, in := range b.Instrs {
+				if _, ok := callIs(in, "unicode", "", "IsUpper"); ok && lp == nil {
+					lp = l
+				}
+			}
+		}
+	}
+	if lp == nil || loopBodyStart(lp) == nil {
+		c.Undecided(R, "parseKeyValueLine:key scan", site, "the loop that applies unicode.IsUpper was not found")
+		return
+	}
+	start := loopBodyStart(lp)
+	for _, sample := range []struct {
+		b      int64
+		refuse bool
+	}{{' ', true}, {'\t', true}, {'\f', true}, {'\v', true}, {'\r', true}, {'A', true}, {'Z', true}, {'a', false}, {'z', false}, {'-', false}, {'0', false}, {'_', false}} {
+		sample := sample
+		r := rune(sample.b)
+		decide := func(s *Sym) (bool, bool) {
+			if s.Op == "call" {
+				switch {
+				case strings.HasPrefix(s.Name, "unicode.IsSpace"):
+					return unicode.IsSpace(r), true
+				case strings.HasPrefix(s.Name, "unicode.IsUpper"):
+					return unicode.IsUpper(r), true
+				case strings.HasPrefix(s.Name, "unicode.IsLower"):
+					return unicode.IsLower(r), true
+				}
+				return false, false
+			}
+			if s.Op != "binop" || len(s.Args) != 2 {
+				return false, false
+			}
+			isChar := func(x *Sym) bool {
+				for x.Op == "convert" && len(x.Args) == 1 {
+					x = x.Args[0]
+				}
+				str := x.String()
+				return strings.Contains(str, "DecodeRune") && x.Op == "extract" && x.Idx == 0 || (x.Op == "load" || x.Op == "index") && strings.Contains(str, "param:")
+			}
+			isPos := func(x *Sym) bool { return x.Op == "opaque" || x.Op == "phi-unknown" }
+			cst := func(x *Sym) (int64, bool) {
+				if x.isConst() && x.Const != nil && x.Const.Kind() == constant.Int {
+					return constant.Int64Val(x.Const)
+				}
+				return 0, false
+			}
+			var a, b int64
+			switch {
+			case isChar(s.Args[0]):
+				k, ok := cst(s.Args[1])
+				if !ok {
+					return false, false
+				}
+				a, b = sample.b, k
+			case isChar(s.Args[1]):
+				k, ok := cst(s.Args[0])
+				if !ok {
+					return false, false
+				}
+				a, b = k, sample.b
+			case isPos(s.Args[0]):
+				// the position: not the first character (some i > 0)
+				k, ok := cst(s.Args[1])
+				if !ok || k != 0 {
+					return false, false
+				}
+				a, b = 5, 0
+			case isPos(s.Args[1]):
+				k, ok := cst(s.Args[0])
+				if !ok || k != 0 {
+					return false, false
+				}
+				a, b = 0, 5
+			default:
+				return false, false
+			}
+			switch s.Tok {
+			case token.EQL:
+				return a == b, true
+			case token.NEQ:
+				return a != b, true
+			case token.LSS:
+				return a < b, true
+			case token.LEQ:
+				return a <= b, true
+			case token.GTR:
+				return a > b, true
+			case token.GEQ:
+				return a >= b, true
+			}
+			return false, false
+		}
+		outs, why := e6Enumerate(func() *e6Interp {
+			return &e6Interp{PureCall: func(f *types.Func) bool { return true }, Decide: decide}
+		}, start, lp.Header, iterStop(lp, start), 64)
+		key := fmt.Sprintf("parseKeyValueLine:key character %q", r)
+		if why != "" {
+			c.Undecided(R, key, site, why)
+			continue
+		}
+		ok := len(outs) > 0
+		for _, o := range outs {
+			refused := o.Term == "return"
+			if refused != sample.refuse {
+				ok = false
+			}
+		}
+		c.Check(ok, R, key, site, fmt.Sprintf("refused=%v", sample.refuse),
+			fmt.Sprintf("inside a key the character %q is %s, but unicode.IsSpace/IsUpper say it must be %s: a foreign line such as `progress\\rdone: 100%%` then becomes a configuration key on every following result (or a legitimate key is ignored)", r, map[bool]string{true: "accepted", false: "refused"}[sample.refuse], map[bool]string{true: "refused", false: "accepted"}[sample.refuse]))
+	}
 }
